@@ -11,6 +11,10 @@ CLAIMED = {
              ref='DESIGN.md section 4 C01'),
  'C11': dict(text='Same symbolic explorations as C01 with the C11 assertions: Boolean-closure connectivity of the matrix after every accepted swap and at return (connected / strongly connected 4-node supports, symbolic weights and draws), BCTParamError on every path for disconnected or asymmetric input, lattice cost never increased for a caller-supplied D (symbolic weights with circular D; symbolic D with unit weights), and the symmetric symbolic mask of randomize_graph_partial_und respected.',
              ref='DESIGN.md section 4 C11'),
+ 'C06': dict(text='randmio_und_signed / randmio_dir_signed run on fully symbolic signed matrices (every off-diagonal entry an unconstrained real, the randint(n**4) draw symbolic): per-node positive/negative in/out degree, signed weight multisets, empty diagonal and symmetry are proved on every path; null_model_*_sign run on enumerated signed matrices with symbolic draws and a recording np.corrcoef stub.',
+             ref='DESIGN.md section 4 C06'),
+ 'C13': dict(text='For 80+ public functions x enumerated argument templates x option variants, every array argument carries an unconstrained symbolic diagonal; after the call (return or exception) z3 proves cell by cell that the argument still holds its original terms on every explored path (path cap per case); a concrete non-zero diagonal variant backs up functions whose dependence on the diagonal is non-linear.',
+             ref='DESIGN.md section 4 C13'),
 }
 NA = {}
 def repo_hook_commits():
